@@ -95,7 +95,7 @@ theorem before_rename_tmp (u : Nat) (fs : FS) (tmp : Path) (mode : Nat) (cs : Li
 /-- the atomic step -/
 theorem run_rename (u : Nat) (fs : FS) (pre : List Act) (tmp dst : Path) (d : FileData)
     (h : run u fs pre tmp = some d) :
-    run u fs (pre ++ [Act.rename tmp dst]) = ((run u fs pre).set dst (some d)).set tmp none := by
+    run u fs (pre ++ [Act.rename tmp dst]) = ((run u fs pre).set tmp none).set dst (some d) := by
   rw [run_append]
   simp only [run, applyAct, h]
 
@@ -619,7 +619,7 @@ theorem shape_atomic (u : Nat) (fs : FS) (tmp dst : Path) (hne : tmp ≠ dst) (m
       have htmp : run u fs ([Act.createExcl tmp mode] ++ ws ++ [Act.close tmp]) tmp =
           some ⟨cs.flatten, lessUmask mode u⟩ := by
         rw [hws', before_rename_tmp]
-      rw [run_rename u fs _ tmp dst _ htmp, set_other _ _ _ _ hd, set_same]
+      rw [run_rename u fs _ tmp dst _ htmp, set_same]
 
 /-- any tail but the commit tail: the destination is untouched and the temporary file is gone -/
 theorem shape_failure (u : Nat) (fs : FS) (tmp dst : Path) (hne : tmp ≠ dst) (mode : Nat) (ws tl : List Act)
@@ -656,7 +656,7 @@ theorem shape_commit (u : Nat) (fs : FS) (tmp dst : Path) (hne : tmp ≠ dst) (m
       ([Act.createExcl tmp mode] ++ cs.map (Act.write tmp) ++ [Act.close tmp]) ++ [Act.rename tmp dst] := by simp
   have htmp := before_rename_tmp u fs tmp mode cs
   rw [hsplit, run_rename u fs _ tmp dst _ htmp]
-  exact ⟨by rw [set_other _ _ _ _ hd, set_same], by rw [set_same]⟩
+  exact ⟨by rw [set_same], by rw [set_other _ _ _ _ (fun e => hd e.symm), set_same]⟩
 
 /-- **closed form of `fileRun`** (the `safe.File` API used directly: one `write(2)` per piece) -/
 theorem fileRun_shape (tmp dst : Path) (mode : Nat) (pieces : List Bytes) (doCommit : Bool) (fault : Fault) :
